@@ -230,7 +230,7 @@ func (w *World) Append(dst, src int) string {
 func (w *World) ChanIndex(v, c, i int) {
 	b := w.views[v]
 	var r int
-	p := try(func() { r = b.ChanIndex(c, i) })
+	p := try(func() { r = b.KeptChanIndex(c, i) })
 	if p == "" {
 		w.opline("cidx %d %d %d -> val %d", v, c, i, r)
 	} else {
@@ -242,7 +242,7 @@ func (w *World) ChanIndex(v, c, i int) {
 func (w *World) ChanGet(v, c, i int) {
 	b := w.views[v]
 	var r uint64
-	p := try(func() { r = b.ChanSample(c, i) })
+	p := try(func() { r = b.KeptChanSample(c, i) })
 	if p == "" {
 		w.opline("cget %d %d %d -> val %s", v, c, i, cellString(r, b.Kind()))
 	} else {
@@ -253,7 +253,7 @@ func (w *World) ChanGet(v, c, i int) {
 
 func (w *World) ChanSet(v, c, i int, val uint64) {
 	b := w.views[v]
-	p := try(func() { b.ChanSet(c, i, val) })
+	p := try(func() { b.KeptChanSet(c, i, val) })
 	w.opline("cset %d %d %d %s -> %s", v, c, i, cellString(normCell(val, b.Kind()), b.Kind()), w.res(p))
 	w.st.op("cset")
 	w.Dump()
@@ -261,7 +261,7 @@ func (w *World) ChanSet(v, c, i int, val uint64) {
 
 func (w *World) ChanShape(v, c int) {
 	b := w.views[v]
-	a, l, k := b.ChanShape(c)
+	a, l, k := b.KeptChanShape(c)
 	w.opline("cshape %d %d -> val %d %d %d", v, c, a, l, k)
 	w.st.op("cshape")
 }
